@@ -398,6 +398,10 @@ class CheckCall(Contract):
         user = self.fixed.get("fn", "user_function") == "user_function"
         fn0 = T.Callback(T.Any).fresh("user_check_fn") if user else Obj(Dispatcher, "dispatcher_at_entry", pre=True)
         registry_entry = Obj(Dispatcher, "registry_entry", pre=True)
+        for d in ([] if user else [fn0]) + [registry_entry]:
+            # the built-in check whose implementations the dispatcher holds (Dispatcher.register: the name of the registered function)
+            d.attrs["_name"] = "isin"
+            d.attrs0["_name"] = "isin"
         name = None if self.fixed.get("name", "none") == "none" else T.fresh_value(T.Str, "name")
         chk = T.Ref(None, get_backend=T.Callback(be_cls, raises=True), is_builtin_check=T.Callback(T.Bool, raises=False),
                     get_builtin_check_fn=T.Callback(T.Lazy(lambda n: registry_entry), raises=False)).fresh("check")
@@ -420,8 +424,11 @@ class CheckCall(Contract):
         if self.fixed.get("fn", "user_function") == "user_function":
             return {"a_user_function_is_never_replaced_whatever_the_name": now is g["fn0"]}
         asked = fld0(self_, "get_builtin_check_fn").calls
-        return {"a_dispatcher_is_refreshed_only_by_the_registry_entry_of_its_name": now is g["fn0"] or (now is g["registry_entry"] and len(asked) == 1
-                                                                                                   and asked[0][0][0] is fld0(self_, "name"))}
+        # the registry is keyed by the name of the BUILT-IN CHECK; what the user called this Check (`name=`) only names it - a check
+        # `Check.isin([...], name="equal_to")` keeps checking membership
+        return {"a_dispatcher_is_refreshed_only_by_the_registry_entry_of_the_builtin_it_implements":
+                now is g["fn0"] or (now is g["registry_entry"] and len(asked) == 1 and core.as_z3_bool(py_eq(asked[0][0][0], "isin")) is not None
+                                    and bool(z3.is_true(z3.simplify(core.as_z3_bool(py_eq(asked[0][0][0], "isin")))) if not isinstance(asked[0][0][0], str) else asked[0][0][0] == "isin"))}
 
     def ensures(self, result, old, self_, check_obj, column):
         gb = fld0(self_, "get_backend")
